@@ -323,6 +323,18 @@ func (env *Env) execBuiltinStmt(name string, x *ast.CallExpr, st *State) Val {
 		c.assign(env, x.Args[0], env.zero(m.Ty), st)
 		return Val{}
 	case "close":
+		// close(x.f): ghost flag x.fClosed; closing twice panics
+		if sel, ok := unparen(x.Args[0]).(*ast.SelectorExpr); ok {
+			base := env.eval(sel.X, st)
+			if _, sty, isPtr := structOf(env.subst(base.Ty)); sty != nil && isPtr {
+				key := env.structSortOf(base.Ty) + ".$" + sel.Sel.Name + "Closed"
+				h := env.heapTerm(st, key, "Bool")
+				env.safety(st, "close-closed", not(app("select", h, base.T)), x.Pos())
+				st.heap[key] = app("store", h, base.T, "true")
+				c.trust("close(x.f) of a channel field sets the ghost flag x.fClosed; receive/blocking is not modelled")
+				return Val{}
+			}
+		}
 		c.trust("channel close is not modelled")
 		return Val{}
 	}
